@@ -26,8 +26,8 @@ def cvalue(rnd, nan_ok=True):
     if r < 0.7 and nan_ok:
         return NAN
     if r < 0.8:
-        return rnd.pick([0x0000000000000000, 0x8000000000000000, 0x7ff0000000000000, fbits(0.1), fbits(123456.789012345678),
-                         fbits(1e16), fbits(-1e16), 0x3ff0000000000001, fbits(1 / 3)])
+        return rnd.pick([0x0000000000000000, 0x8000000000000000, 0x7ff0000000000000, 0xfff0000000000000, 0x7ff0000000000000, fbits(0.1),
+                         fbits(123456.789012345678), fbits(1e16), fbits(-1e16), 0x3ff0000000000001, fbits(1 / 3), fbits(1.7e308), fbits(-1.7e308)])
     return fbits(round(rnd.uniform(-1000, 1000), 3))
 
 
@@ -165,7 +165,7 @@ def gen_c08(rnd, n, thorough=False):
             if rnd.chance(0.5):
                 gl += fill_ops(rnd, 'h/y/a.wsp', layout, m, xff, density=0.4, inconsistent=False)
             pat = rnd.pick(['*/a.wsp', '*/*.wsp', 'y/?.wsp', 'z/*.wsp'])
-            gl += ["clicopy src=g:%s dest=h: from=0 until=0 archive=-1 copynan=%d m=%d x=%08x layout=%s" % (pat, copynan, m, xff, lay_csv(layout))]
+            gl += ["clicopy src=g:%s dest=h: from=0 until=0 archive=-1 copynan=%d m=%d x=%08x layout=%s spell=%d" % (pat, copynan, m, xff, lay_csv(layout), rnd.pick([0, 1, 2, 3, 4]))]
             for nm in names:
                 observe_all(gl, 'h/' + nm[2:], layout)
             cases.append({'id': 'c08-%d-glob' % c, 'lines': gl, 'tags': {'layout': lname, 'dest': 'glob', 'window': 'default'}})
@@ -242,7 +242,7 @@ def gen_c09(rnd, n, thorough=False):
                     cp = cp[:-2] + ["many h/%s 0 @ 1 @-%d %016x" % (nm, layout[0][0], fbits(777.0))] + cp[-2:]
                 gl += cp
             pat = rnd.pick(['*/*.wsp', '*/a.wsp', 'q/*.wsp'])
-            gl.append("clidiff src=g:%s dest=h: from=0 until=0 archive=-1" % pat)
+            gl.append("clidiff src=g:%s dest=h: from=0 until=0 archive=-1 spell=%d" % (pat, rnd.pick([0, 1, 2, 3, 4])))
             cases.append({'id': 'c09-%d-glob' % c, 'lines': gl, 'tags': {'layout': lname, 'pair': 'glob', 'window': 'default'}})
     return cases
 
@@ -292,7 +292,7 @@ def gen_c10(rnd, n, thorough=False):
         hold = ''
         if kind == 'order':
             hold = ' hold=s/%s/f0.wsp:300' % items[0].replace('.', '/')
-        lines.append("clisum base=s item=%s src=%s from=%s until=%s archive=%d header=%d%s" % (itempat, srcpat, frm, until, arch, rnd.pick([0, 1]), hold))
+        lines.append("clisum base=s item=%s src=%s from=%s until=%s archive=%d header=%d%s spell=%d" % (itempat, srcpat, frm, until, arch, rnd.pick([0, 1]), hold, rnd.pick([0, 0, 1, 2, 3, 4])))
         cases.append({'id': 'c10-%d' % c, 'lines': lines, 'tags': {'layout': lname, 'kind': kind, 'files': nfiles, 'window': wk}})
     return cases
 
@@ -328,7 +328,7 @@ def gen_c11(rnd, n, thorough=False):
         if destkind == 'cascade':
             wk, frm, until, arch = 'default', '0', '0', -1
         srcpat = 'q*.wsp' if destkind == 'missing_src' else '*.wsp'
-        common = "base=s item=* src=%s destbase=d dest=sum.wsp from=%s until=%s archive=%d" % (srcpat, frm, until, arch)
+        common = "base=s item=* src=%s destbase=d dest=sum.wsp from=%s until=%s archive=%d spell=%d" % (srcpat, frm, until, arch, rnd.pick([0, 0, 1, 2, 3, 4]))
         lines.append("clisumdiff " + common)
         lines.append("clisumcopy " + common + " m=%d x=%08x layout=%s" % (m, xff, lay_csv(layout)))
         for it in items:
